@@ -193,6 +193,24 @@ def unfold_wf(E, D):
         E.assume(mk_bool(f))
 
 
+def unfold_wf_deep(E, D, depth=3):
+    """hwfp unfolded at D and, for a node built on this path, at its embedded children"""
+    D = z3.simplify(D)
+    unfold_wf(E, D)
+    if depth <= 0 or not is_constructor(D):
+        return
+    name = D.decl().name()
+    refs = []
+    if name == "HExt":
+        refs = [D.arg(1)]
+    elif name == "HBranch":
+        refs = [D.arg(i) for i in range(16)]
+    for r in refs:
+        for leaf in ref_leaves(r):
+            if z3.is_app(leaf) and leaf.decl().name() == "REmb":
+                unfold_wf_deep(E, leaf.arg(0), depth - 1)
+
+
 def hwf(E, D, depth=1):
     """well-formedness of a node as the trie writes it (one level; embedded children deeply through hwfp)"""
     BNH = blank_node_hash(E)
